@@ -28,3 +28,38 @@ def matured (depths : List Nat) (rs : List Reward) (a : String) (h : Nat) : Nat 
   ((rs.filter fun r => (r.addr == a && depths.contains r.depth) && decide (1 ≤ r.block ∧ r.block + r.depth ≤ h)).map (·.amount)).sum
 
 end QuaiVerif.Payout
+
+/-
+Second part: the account a payout goes to may not exist yet.  RedeemLockedQuai then withholds the account-creation
+fee from the first payout that can cover it (a payout that cannot is dropped and creates nothing); once the account
+exists - also when an earlier payout of the same block created it - payouts are credited in full.
+-/
+namespace QuaiVerif.Payout
+
+structure Acct where
+  live : Bool
+  bal  : Nat
+  deriving Repr, DecidableEq
+
+/-- One payout of `amt` while the creation fee is `fee`. -/
+def credit (fee : Nat) (a : Acct) (amt : Nat) : Acct :=
+  if a.live then { a with bal := a.bal + amt }
+  else if fee ≤ amt then { live := true, bal := a.bal + (amt - fee) }
+  else a
+
+/-- The payouts of one block, in the order the processor meets them. -/
+def creditAll (fee : Nat) (a : Acct) (amts : List Nat) : Acct := amts.foldl (credit fee) a
+
+/-- End of block: an account left without balance (it was created by a payout equal to the fee) is removed again. -/
+def settle (a : Acct) : Acct := if a.bal = 0 then { a with live := false } else a
+
+/-- The payouts to `a` that processing block `h` meets: depth by depth, and within the block `h - d` in ETX order. -/
+def unlocksAt (depths : List Nat) (rs : List Reward) (a : String) (h : Nat) : List Nat :=
+  depths.flatMap fun d => (rs.filter fun r => (r.addr == a && r.depth == d) && decide (1 ≤ r.block ∧ r.block + r.depth = h)).map (·.amount)
+
+/-- The account of `a` after blocks 1..h; `fee k` is the creation fee in force while block `k` is processed. -/
+def acctUpTo (depths : List Nat) (fee : Nat → Nat) (rs : List Reward) (a : String) (init : Acct) : Nat → Acct
+  | 0 => init
+  | h + 1 => settle (creditAll (fee (h + 1)) (acctUpTo depths fee rs a init h) (unlocksAt depths rs a (h + 1)))
+
+end QuaiVerif.Payout
